@@ -540,6 +540,8 @@ def faults(site):
         return [("out-of-scope-name:" + n, n) for n in site.extra]
     if site.kind == "tail":
         return [("path-without-return:" + t, t) for t in site.extra]
+    if site.family == "T-orfb":
+        return [("optional-of-expected:g_oint", "g_oint"), ("near-miss-type:\"txt\"", "\"txt\""), ("near-miss-type:true", "true"), ("near-miss-type:g_list", "g_list"), ("near-miss-type:g_ostr", "g_ostr")]
     if site.family.startswith("T-ctr-"):
         w = {"T-ctr-int": ["0.5", "B1", "g_fl", "g_big"], "T-ctr-byte": ["1", "0.5", "B1", "g_int"], "T-ctr-bigint": ["0.5", "g_fl"], "T-ctr-float": []}[site.family]
         return [("counter-of-another-type:" + x, x) for x in w] + [("near-miss-type:true", "true"), ("near-miss-type:\"s\"", "\"s\"")]
@@ -978,6 +980,26 @@ def counter_matrix():
     return out
 
 
+def or_fallback_matrix():
+    """the fallback of `(x) or y` must be of the type UNDER x's optional, wherever x lives: a module variable, a variable captured
+    by a function / by a closure inside a function, a parameter, a field, an element"""
+    out = []
+    places = {"module": ["r0: int = (g_oint) or {S}"],
+              "captured-by-function": ["rf = fn() -> int {", "\treturn (g_oint) or {S}", "}", "print rf()"],
+              "captured-by-closure": ["mk = fn() -> fn() -> int {", "\tloc: int? = nil", "\treturn fn() -> int {", "\t\treturn (loc) or {S}", "\t}", "}", "rc = mk()", "print rc()"],
+              "parameter": ["rp = fn(p: int?) -> int {", "\treturn (p) or {S}", "}", "print rp(nil)"],
+              "element": ["lo1: [int?...] = [nil]", "r1: int = (lo1[0]) or {S}"],
+              "method-field": ["class Of {", "\tv: int?", "\tconstructor(self) {", "\t\tself.v = nil", "\t}", "\tfn get_v(self) -> int {", "\t\treturn (self.v) or {S}", "\t}", "}", "of1 = Of()", "print of1.get_v()"]}
+    for pn, lines in places.items():
+        b = Builder(None, "main.ms")
+        b.add("print \"@START\"")
+        for l in lines:
+            b.add(l.replace("{S}", b.site("T-orfb", "7")) if "{S}" in l else l)
+        b.add("print \"@END\"")
+        out.append({"files": {"main.ms": PRELUDE + "\n".join(b.lines) + "\n"}, "sites": list(b.sites), "matrix": "or-fallback|" + pn})
+    return out
+
+
 def scope_matrix():
     """a name that IS declared - but in a scope that does not reach the place of use (another branch of the same if, a loop body
     that has ended, a function's locals and parameters seen from outside, an inner block) must be diagnosed like an unknown name.
@@ -1021,7 +1043,7 @@ def scope_matrix():
 
 
 def enumerated(tier, seed):
-    return position_matrix() + scope_matrix() + opassign_matrix() + return_path_matrix() + counter_matrix()
+    return position_matrix() + scope_matrix() + opassign_matrix() + return_path_matrix() + counter_matrix() + or_fallback_matrix()
 
 
 @st.composite
